@@ -268,10 +268,13 @@ Section Tsv.
     match extract_tsv lines with
     | RErr e => RErr e
     | ROk x =>
+        (* an empty metadata list is turned into None by the constructor's _cast_metadata
+           (table.py:670-672, [].count(None) == len([])) *)
         let omd := match e_md x with
-                   | None => None
-                   | Some l => Some (map (fun v => [(match e_name x with Some n => n | None => [] end,
-                                                      process v)]) l)
+                   | Some ((_ :: _) as l) =>
+                       Some (map (fun v => [(match e_name x with Some n => n | None => [] end,
+                                             process v)]) l)
+                   | _ => None
                    end in
         let n := length (e_oids x) in
         let m := length (e_sids x) in
